@@ -38,6 +38,27 @@ func (c *Ctx) isIntersection(v ssa.Value, depth int) bool {
 		_, k1 := core.Strip(x.X).(*ssa.Const)
 		_, k2 := core.Strip(x.Y).(*ssa.Const)
 		return !k1 && !k2 && isModeType(x.X.Type()) && isModeType(x.Y.Type()) && !sameValue(x.X, x.Y, 0)
+	case *ssa.Call:
+		// an accessor that returns the intersection (`pair.effective()`, `acsOf(pud).effective()`)
+		g := x.Call.StaticCallee()
+		if g == nil || !core.InModule(g) || len(g.Blocks) == 0 || g.Signature.Results().Len() != 1 || !isModeType(g.Signature.Results().At(0).Type()) {
+			return false
+		}
+		n, good := 0, true
+		core.AllInstrs(g, func(in ssa.Instruction) {
+			ret, ok := in.(*ssa.Return)
+			if !ok || len(ret.Results) != 1 {
+				return
+			}
+			if _, isK := core.Strip(ret.Results[0]).(*ssa.Const); isK {
+				return
+			}
+			n++
+			if !c.isIntersection(ret.Results[0], depth+1) {
+				good = false
+			}
+		})
+		return good && n > 0
 	case *ssa.Phi:
 		n := 0
 		for _, e := range x.Edges {
@@ -248,9 +269,15 @@ func (c *Ctx) checkIntersect() {
 	wantF, givenF := c.E().pudField("modeWant"), c.E().pudField("modeGiven")
 	wu, gu := c.E().topicField("modeWantUnion"), c.E().topicField("modeGivenUnion")
 	okPair := true
+	pairStruct := false
 	core.AllInstrs(gp, func(in ssa.Instruction) {
 		ret, ok := in.(*ssa.Return)
 		if !ok {
+			return
+		}
+		if len(ret.Results) < 2 {
+			// the pair is returned as one small struct: decided below, per field
+			pairStruct = true
 			return
 		}
 		f0, b0 := core.LoadedField(core.Strip(ret.Results[0]))
@@ -263,6 +290,24 @@ func (c *Ctx) checkIntersect() {
 		}
 		okPair = false
 	})
+	if pairStruct {
+		// struct{want, given}: at every return field 0 is a want and field 1 a given of one record (or the unions)
+		var w0, g0 [][]ssa.Value
+		ok0 := core.EachReturnedFieldValue(gp, 0, 0, func(_ *ssa.Return, vals []ssa.Value, _ bool) { w0 = append(w0, vals) })
+		ok1 := core.EachReturnedFieldValue(gp, 0, 1, func(_ *ssa.Return, vals []ssa.Value, _ bool) { g0 = append(g0, vals) })
+		okPair = ok0 && ok1 && len(w0) == len(g0) && len(w0) > 0
+		for i := range w0 {
+			if !okPair || len(w0[i]) != 1 || len(g0[i]) != 1 {
+				okPair = false
+				break
+			}
+			f0, b0 := core.LoadedField(core.Strip(w0[i][0]))
+			f1, b1 := core.LoadedField(core.Strip(g0[i][0]))
+			if !((f0 == wantF && f1 == givenF && sameValue(b0, b1, 0)) || (f0 == wu && f1 == gu)) {
+				okPair = false
+			}
+		}
+	}
 	r.Check(okPair, "C07.1c-pair-helper", "Topic.getPerUserAcs returns (want, given) of one record or the unions", c.P.Pos(gp.Pos()), "", "the want/given pair helper no longer returns the two sides of one record")
 }
 
